@@ -9,7 +9,11 @@
 
    Parser cases ([P], [B], [Q], [V] lines): totality and aag/aig agreement are
    observations of the real parsers (a search, no model); only the 7-bit varint
-   / delta codec ([V]) is compared with the extracted model of coq/IO/Aiger.v. *)
+   / delta codec ([V]) is compared with the extracted model of coq/IO/Aiger.v.
+
+   AIGER cases ([A], [D] lines, C18p): the extracted model of the whole AIGER reader
+   (coq/IO/AigerParse.v) runs on the same bytes, see c18p.ml; [driver genaig <tier>
+   <seed>] writes the cases of generated well-formed problems. *)
 open Conv
 
 let nat = nat_of_int
@@ -193,6 +197,9 @@ let handle_varint c i (opl : string) (res : string) : bool =
   | _ -> failwith ("bad V line: " ^ opl)
 
 let () =
+  if Array.length Sys.argv >= 4 && Sys.argv.(1) = "genaig" then (
+    C18p.gen Sys.argv.(2) Sys.argv.(3);
+    exit 0);
   iter_cases stdin (fun c ->
       let bad = ref false in
       List.iteri
@@ -240,6 +247,8 @@ let () =
                   bad := true;
                   verdict_bad c i "prop" ("equivalent aag / aig files do not parse to the same problem: " ^ res))
               | 'V' -> if handle_varint c i opl res then bad := true
+              | 'A' -> if C18p.handle_a c i opl res then bad := true
+              | 'D' -> C18p.handle_d res
               | _ -> failwith ("unknown line " ^ l))
         c.lines;
       stat "cases" 1;
